@@ -12,6 +12,7 @@ EXPLANATION = (
     "in the ordered runnable set's order with faulted heads filtered; (R7) fault scoping is total over runtime errors. "
     "That restore restores the right VALUES is NOT decided."
     " Round 2: (R1a) nothing is captured into the rollback checkpoint on a path that follows a head's commit (pre-pass image); (R8) the receipt-correlation undo journal is recorded at the back and replayed newest-first."
+    ' The receipt-correlation undo entry is pushed before the index writes it undoes; capture-before-commit covers the provenance checkpoint and captures performed inside per-head closures.'
 )
 ASSUMPTIONS = ["clone() of heads/frontiers captures their full value", "BTreeSet iteration is canonical order"]
 FLOOR = 44
